@@ -205,7 +205,7 @@ def main(argv):
         for n, pth, sz in cs[:nprog * 2]:
             cands.append((n, open(pth, "rb").read(), "corpus"))
         for g in range(ngen):
-            src = progen.gen_program(vsim.Rng(seed, "c08-gen", g), size="small")
+            src = progen.gen_program(vsim.Rng(seed, "c08-gen", g), size="small", force=("tokens",) if g % 2 == 0 else ())
             cands.append(("gen%03d.as" % g, src.encode(), "generated"))
         work = []
         for name, text, origin in cands:
